@@ -409,14 +409,25 @@ func init() {
 				modes[p] = []string{"row", "batch", "batch"}[r.Intn(3)]
 			}
 			alone := make([]concResult, len(texts))
-			for p := range texts {
-				o, _ := RunOn(texts[p], kvOf(sp), RunOpts{Mode: modes[p%len(modes)], BSize: bsz, Cache: true, NoLog: true})
-				alone[p] = concResult{Phase: o.Phase, Rows: o.Rows}
-				if o.err != nil {
-					alone[p].Rendered, _ = BindAndRender(o.err, texts[p], -1)
+			runAlone := func() {
+				for p := range texts {
+					o, _ := RunOn(texts[p], kvOf(sp), RunOpts{Mode: modes[p%len(modes)], BSize: bsz, Cache: true, NoLog: true})
+					alone[p] = concResult{Phase: o.Phase, Rows: o.Rows}
+					if o.err != nil {
+						alone[p].Rendered, _ = BindAndRender(o.err, texts[p], -1)
+					}
 				}
 			}
+			// the reference runs come AFTER the concurrent run in two rounds out of three: run first, they would warm up
+			// whatever the library keeps between statements and the concurrent run would only ever read it
+			aloneFirst := i%3 == 0
+			if aloneFirst {
+				runAlone()
+			}
 			log, results, _, _ := runConcurrent(sp, texts, nil, bsz, modes)
+			if !aloneFirst {
+				runAlone()
+			}
 			for p := range results {
 				results[p].HasAlone, results[p].AlonePhase, results[p].AloneRows, results[p].AloneRendered = true, alone[p].Phase, alone[p].Rows, alone[p].Rendered
 				if results[p].AloneRows == nil {
